@@ -17,11 +17,13 @@ def audit (s : St) (ln : Nat) (fname : String) : St := Id.run do
   let recs := (s.nodes.filter (·.1 == fname)).map (·.2)
   let roots := ((s.roots.find? (·.1 == fname)).map (·.2)).getD []
   -- (1) reference recount (C06): in(h) = #parent slots + #root edges
+  let mut recountOK := true
   for n in recs do
     let fromParents := recs.foldl (fun acc m => acc + (m.down.filter (· == Child.nd n.handle)).length) 0
     let fromRoots := (roots.filter (· == Child.nd n.handle)).length
     s := s.tick
     if n.inCount != fromParents + fromRoots then
+      recountOK := false
       s := s.diff ln "refcount" s!"forest={fname} node={n.handle} expected={fromParents + fromRoots} got={n.inCount}"
     -- no dangling children
     for c in n.down do
@@ -34,6 +36,13 @@ def audit (s : St) (ln : Nat) (fname : String) : St := Id.run do
     | .nd h => if !(recs.any (·.handle == h)) then
         s := s.diff ln "dangling-root" s!"forest={fname} root={h} expected=live got=missing"
     | _ => pure ()
+  -- the same recount through the definition the theorems of State/Recount.lean are about (`Recount.ok`:
+  -- `no_leak`, `count_zero_of_no_roots`, `root_counted`): both must give the same verdict
+  let DR : Dump Val := recs.map (fun n => { handle := n.handle, pos := n.pos, down := n.down })
+  let inc : Nat → Nat := fun h => match recs.find? (·.handle == h) with | some n => n.inCount | none => 0
+  s := s.tick
+  if Recount.ok DR roots inc != recountOK then
+    s := s.diff ln "recount-definition" s!"forest={fname} expected(loop)={recountOK} got(Recount.ok)={Recount.ok DR roots inc}"
   -- (2) canonical form certificate (C01/C02), MT forests: verified checker
   if f.lab == "mt" then
     let D : Dump Val := recs.map (fun n => { handle := n.handle, pos := n.pos, down := n.down })
